@@ -31,6 +31,8 @@ def tlc_cmd(module, cfg=None, *, workers=1, xmx="2g", metadir=None, extra=()):
     else:
         jvm = ["-XX:+UseParallelGC", f"-Xmx{xmx}"]
         tl = []
+    if metadir:      # TLC's own scratch directories (tlc-<n>) go where the metadir goes and are removed with it
+        jvm.append(f"-Djava.io.tmpdir={metadir}")
     cmd = ["java", *jvm, "-cp", JAR, "tlc2.TLC", "-workers", str(workers), "-noGenerateSpecTE", *tl]
     if metadir:
         cmd += ["-metadir", str(metadir)]
